@@ -33,6 +33,10 @@ CHECKS = {
             "same module Amf0.tla with the AMF0 specification's strict-array layout as the independent encoder/decoder (evaluated by TLC); all 256 markers in 5 positions; known deviation StrictKeyed predicted by the spec",
             "library bytes equal the specification's Enc(v) and the library decodes Enc(v) to v for every generated tree incl. FFmpeg/Flash metadata; Discovery class and decode/no-decode match for all 256 markers in every position; trees with non-empty strict arrays are classified as the known finding only if both encoder and decoder behave exactly as the specification's StrictKeyed prediction, anything else is a violation",
             "the independent implementation is the TLA+ spec evaluated by TLC; strict-array elements have no positional accessor (compared through bytes)", "5/C06"),
+    "C08": ("model_checking",
+            "TLA+ specs ErrChain.tla (constructor nestings, Cause/text/nil rules) and FramedIo.tla (framed stream over a transport that ends or fails at any byte; Complete(n) oracle) checked by TLC; TLC-enumerated nestings and sessions replayed with every cut offset and every read/write call fault against errors, rtmp (incl. handshake) and flv",
+            "TLC checks the framed-stream model for every cut / read-fault offset of a small stream (returned items = exactly the completely transferred ones, in order, then the transport's error class; the 'partial item returned' deviation violates it); every constructor nesting to depth 4/6 and every generated RTMP session, FLV file and the handshake is replayed against the real code at EVERY cut offset under two segmentations and with an injected sentinel at every read and write call index, checking root-cause identity through errors.Cause, exact item counts and that nothing is returned together with an error",
+            "trusts TLC, the in-memory transport's fault injection and observed item end offsets (the spec's predicted sizes are info only); EOF vs UnexpectedEOF not judged; streams above 4 kB (150 kB thorough) use boundary+stride offsets", "5/C08"),
     "C09": ("model_checking",
             "TLA+ spec FlvFile.tla: mux/transport/demux state machine with byte-level reference decoder, TLC invariants and two named deviations; TLC-generated files and seeded walks replayed into the flv muxer/demuxer, layout from the spec as oracle",
             "TLC explores every interleaving of muxer calls, segment deliveries and demuxer calls for all flag combinations and small tag lists (Layout, RefDec, Prefix, Final, Framing, Monotone); the boundary matrix (sizes to 2^24-1, timestamps around 2^24/2^32-1) is enumerated and each file is replayed: library bytes must equal the specification's byte for byte, and the demuxer must return the same tags from library-written and spec-written bytes under whole/1-byte/random segmentation",
